@@ -35,7 +35,7 @@ def cases_for(tier, seed):
     cases += [c for c in c1 if c.tag.startswith("c01_interp")][: (4 if tier == "quick" else 40)]
     cases += suites.c03_cases(tier, seed)[:: (25 if tier == "quick" else 5)]
     # (the null-target + inherits family carries the known C06 finding and adds nothing about tables)
-    cases += [c for c in suites.c06_cases(tier, seed) if c.expect == "ok" and not c.tag.startswith("c06_null_target")][:: (4 if tier == "quick" else 1)]
+    cases += [c for c in suites.c06_cases(tier, seed) if c.expect == "ok" and not c.tag.startswith(("c06_null_target", "c06_fk_inside_component"))][:: (4 if tier == "quick" else 1)]
     # arbitrary unicode contents, duplicated across keys / subkeys / namespaces / interpolations
     def tree(l):
         d = {}
